@@ -64,8 +64,11 @@ def gen(ctx):
             mat = [[float(rng.choice(alpha)) for _ in range(n)] for _ in range(m)]
         else:
             mat = G.matrix(rng, m, n, "dyadic", positive=False, ties=0.5, dups=0.2)
-        dm = {"matrix": mat, "objectives": G.objectives(rng, n), "weights": [1.0] * n, "int_matrix": bigint, "dtype": udtype,
-              "alternatives": G.labels(rng, G.LABEL_POOL_ALT, m), "criteria": G.labels(rng, G.LABEL_POOL_CRIT, n)}
+        # dominance does not look at the weights: any weights, including criteria switched off (weight 0), must give the same analysis
+        wts = rng.choice([[1.0] * n, G.weights(rng, n, "dyadic", distinct=False), [rng.choice([0.0, 0.0, 1.0, 2.5]) for _ in range(n)]])
+        dm = {"matrix": mat, "objectives": G.objectives(rng, n), "weights": wts, "int_matrix": bigint, "dtype": udtype,
+              "alternatives": G.labels(rng, G.LABEL_POOL_ALT, m) if rng.random() < 0.85 else G.int_labels(rng, m),
+              "criteria": G.labels(rng, G.LABEL_POOL_CRIT, n)}
         cases.append({"dm": dm, "calls": _calls(rng, m, rng.randint(3, 9))})
     if ctx.thorough:
         allcalls = lambda m: (
@@ -91,7 +94,7 @@ def observe(case):
     with M.quiet():
         dm = G.mkdm(case["dm"])
         alts = list(case["dm"]["alternatives"])
-        idx = {a: i for i, a in enumerate(alts)}
+        idx = {G.lab(a): i for i, a in enumerate(alts)}
         acc = dm.dominance
         outs = []
         for c in case["calls"]:
@@ -99,20 +102,20 @@ def observe(case):
                 name = c["m"]
                 if name in ("bt", "eq"):
                     df = getattr(acc, name)()
-                    outs.append({"v": df.to_numpy().tolist(), "rows": [str(x) for x in df.index], "cols": [str(x) for x in df.columns]})
+                    outs.append({"v": df.to_numpy().tolist(), "rows": [G.lab(x) for x in df.index], "cols": [G.lab(x) for x in df.columns]})
                 elif name == "dominance":
                     df = acc.dominance(strict=c["strict"])
-                    outs.append({"v": df.to_numpy().astype(bool).tolist(), "rows": [str(x) for x in df.index], "cols": [str(x) for x in df.columns]})
+                    outs.append({"v": df.to_numpy().astype(bool).tolist(), "rows": [G.lab(x) for x in df.index], "cols": [G.lab(x) for x in df.columns]})
                 elif name == "dominated":
                     s = acc.dominated(strict=c["strict"])
-                    outs.append({"v": [bool(x) for x in s.to_numpy()], "rows": [str(x) for x in s.index]})
+                    outs.append({"v": [bool(x) for x in s.to_numpy()], "rows": [G.lab(x) for x in s.index]})
                 elif name == "compare":
                     df = acc.compare(alts[c["a"]], alts[c["b"]])
                     body = df.iloc[:, :-1].to_numpy().astype(bool).tolist()
                     outs.append({"row0": body[0], "row1": body[1], "eq": body[2], "perf": [int(x) for x in df["Performance"].tolist()]})
                 elif name == "dominators_of":
                     d = acc.dominators_of(alts[c["a"]], strict=c["strict"])
-                    outs.append({"v": [idx[str(x)] for x in d]})
+                    outs.append({"v": [idx[G.lab(x)] for x in d]})
                 elif name == "has_loops":
                     outs.append({"v": bool(acc.has_loops(strict=c["strict"]))})
             except Exception as e:
@@ -132,7 +135,7 @@ def _better(o, x, y):
 def judge(case, obs, replies):
     out = []
     dm = case["dm"]
-    A, o, alts = dm["matrix"], dm["objectives"], dm["alternatives"]
+    A, o, alts = dm["matrix"], dm["objectives"], [G.lab(a) for a in dm["alternatives"]]
     m, n = len(A), len(o)
 
     def prop(what, expected=None, observed=None):
